@@ -8,6 +8,7 @@
 package c05
 
 import (
+	"bytes"
 	"context"
 	"encoding/xml"
 	"fmt"
@@ -426,6 +427,10 @@ func run(c *core.Case) {
 			if rec.Err == "panic" {
 				continue
 			}
+			if rec.Err == errStaleWrite.Error() || strings.HasPrefix(rec.Err, "second Close") {
+				c.Violate("wire:TokenWriter:closed-writer-alive", "a token writer that had been closed still accepted a write or failed its second Close: %s", rec.Err)
+				continue
+			}
 			// the workload generates only valid arguments and answers every
 			// request: a failed call is unexpected but not judged by this property
 			c.Notef("%s(%s) failed: %s", rec.Entry, rec.Form, rec.Err)
@@ -452,6 +457,14 @@ func run(c *core.Case) {
 		default:
 			c.Violate("wire:"+rec.Entry+":dup", "%s(%s) returned nil and %d elements carry marker %s", rec.Entry, rec.Form, len(els), rec.Marker)
 			continue
+		}
+		// encoding/xml re-encodes a prefix declaration that is passed through an
+		// Encoder as an attribute in the pseudo namespace "xmlns" (spelled
+		// xmlns:_xmlns="xmlns" _xmlns:p="…").  A caller's own token stream may
+		// contain such declarations (the decoder-backed form); the library
+		// itself must never introduce them.
+		if raw := wire[els[0].Offset:els[0].End]; rec.Form != "decoder" && bytes.Contains(raw, []byte("_xmlns")) {
+			c.Violate("wire:"+rec.Entry+":altered:pseudo-namespace-attr", "%s(%s) marker %s: the element on the wire carries attributes in the pseudo namespace \"xmlns\" that the argument does not have: %q", rec.Entry, rec.Form, rec.Marker, trunc(string(raw)))
 		}
 		if what, d := compare(rec, els[0], streamNS, o.S2S, local); what != "" {
 			c.Violate("wire:"+rec.Entry+":"+what, "%s(%s) marker %s: %s\n  want %s\n  got  %s", rec.Entry, rec.Form, rec.Marker, d, trunc(rec.want.String()), trunc(els[0].String()))
